@@ -104,7 +104,7 @@ def check_dual(ctx, name, l, reqs, meta):
     if closed and min_gap(d) >= GAP_MIN:
         try:
             sides = Counter(int(p.n_sides) for p in d.plaquettes)
-            degs = Counter(int(x) for x in l.vertices.coordination_numbers)
+            degs = Counter(int(x) for x in core.degrees(l))
             if d.n_plaquettes != l.n_vertices or sides != degs:
                 crossing = dual_drawing_crosses(d)
                 if crossing is False:
@@ -129,7 +129,7 @@ def check_truncation(ctx, rng, name, l, chosen, reqs, meta, depth=0):
         rep(f"vertices_to_polygon raised {type(ex).__name__}: {ex}"); return None
     if core.lattice_fingerprint(l, with_plaquettes=False) != lat_fp:
         rep("vertices_to_polygon modified the lattice it was given (positions / edges / crossings)"); return None
-    deg = l.vertices.coordination_numbers
+    deg = core.degrees(l)
     sel = set(range(l.n_vertices)) if chosen is None else set(int(x) for x in np.atleast_1d(chosen))
     trunc = [v for v in range(l.n_vertices) if v in sel and deg[v] > 2]
     V, E = l.n_vertices, l.n_edges
@@ -143,7 +143,7 @@ def check_truncation(ctx, rng, name, l, chosen, reqs, meta, depth=0):
     for v in range(V):
         first[v] = k
         k += int(deg[v]) if v in trunc else 1
-    tdeg = t.vertices.coordination_numbers
+    tdeg = core.degrees(t)
     for v in range(V):
         if v in trunc:
             if not np.all(tdeg[first[v]: first[v] + int(deg[v])] == 3):
@@ -240,12 +240,18 @@ def run(ctx):
             high.append((f"dual-vor{N}", gu.make_dual(zoo.voronoi(rng, N))))
         except Exception:
             pass
+    # long index lists (more than a hundred entries) in arbitrary order, reversed, and as a full permutation
+    high.append(("honey9", eg.honeycomb_lattice(9)))
+    high.append(("vor90", zoo.voronoi(rng, 90)))
     for name, l in lat + small + high:
         l = zoo.rebuild(l)
         if zoo.has_self_loop(l):
             continue
         V = l.n_vertices
         sets = [None, [int(rng.integers(V))], rng.choice(V, size=max(1, V // 4), replace=False), rng.choice(V, size=max(1, V // 2), replace=False)]
+        if V >= 120:
+            sets = [rng.choice(V, size=int(rng.integers(70, V - 10)), replace=False), np.sort(rng.choice(V, size=V // 2, replace=False))[::-1].copy(), rng.permutation(V)]
+            ctx.count("truncations_with_long_unsorted_index_lists", len(sets))
         # vertices whose corners fall across the cell boundary
         near = np.nonzero(np.any((l.vertices.positions < 0.08) | (l.vertices.positions > 0.92), axis=1))[0]
         if len(near):
